@@ -392,8 +392,8 @@ def oracle(case, results):
         if rec.get("exit") != 0 and not stdout_died:
             if rec.get("exit") == 2 and nrep == 1:
                 return vs  # the combination is refused as a usage error: nothing to re-run
-            if torn and nrep == 1:
-                return vs  # what the dying run left (half a multi-byte character, say) is refused: nothing to re-run
+            if torn and (nrep == 1 or not any(p in (rec.get("diff") or {}) for p in tracked)):
+                return vs  # what the dying run left (half a multi-byte character, say) is refused and not touched: nothing to re-run
             if case.get("may_refuse") and nrep == 1 and all(cur[p] == orig.get(p) for p in tracked):
                 return vs  # refused (the text could not be read back) and nothing written: nothing to re-run
             vs.append({"sig": f"C10/nonzero-exit/run{min(nrep, 2)}/{tag}", "detail": f"run {nrep}: exit={rec.get('exit')} stdout={rec.get('stdout', '')[-300:]} argv={st['argv']}"})
